@@ -86,8 +86,26 @@ def streams(seed, tier):
                 b = (unit * (total // ub + 2))[:max(0, (total - len(a.encode()) - 1) // ub + rng.randrange(0, 2))]
                 cases.append(mk(rng.randrange(2), nm, True, name=[b, a]))
                 cases.append(mk(rng.randrange(2), nm, False, name=[a + a, a + a]))
+        # names that differ in letter case only, in a prefix / suffix only, or not at all
+        for a, b in [("foo", "FOO"), ("x", "X"), ("Arg", "ARG"), ("ab", "aB"), ("abc", "abd"), ("abc", "ab"), ("", " "), ("\u00e9", "\u00c9"), ("\u00e9", "e\u0301"), ("K", "\u212a"), ("same", "same")]:
+            cases.append(mk(rng.randrange(2), nm, True, name=[b, a]))
+            cases.append(mk(rng.randrange(2), nm, True, name=[a, b]))
     out.append(Stream("scalar-by-name", "run", "scalar.check", cases,
                       "every scalar instruction driven by NAME through the interpreter: boundary pool x boundary pool + random operands, deeper stacks beneath, missing-operand cases, NAME operands up to 16 KiB incl. multi-byte characters, both profiles"))
+    # every *.FROM* conversion of the registry (the scalar ones above have a reference signature; CODE.FROM*, INTVECTOR.FROMINT,
+    # ... are compared with the model): random whole states, in half of those with bindings the top NAME is a BOUND name
+    from gen import stepgen
+    impl_names, model_names = vcheck.registry_names()
+    allnames = sorted(model_names)
+    safe = [x for x in allnames if x not in stepgen.UNSAFE and x not in stepgen.RANDOM and x not in stepgen.ALLOCATING]
+    conv = [x for x in allnames if ".FROM" in x]
+    n = {"quick": 120, "thorough": 1500, "search": 600}[tier]
+    cases = []
+    for nm in conv:
+        for _ in range(n):
+            cases.append(stepgen.step_case(rng, nm, allnames, safe))
+    out.append(Stream("conversions-by-name", "run", "run.check", cases,
+                      "one step of each of the %d *.FROM* instructions (%s) on random whole states (bindings present, top NAME bound in half of them, 8%% with one LARGE component)" % (len(conv), ", ".join(conv))))
     return out
 
 
